@@ -114,7 +114,7 @@ proof fn lemma_cname_result_consistent(r: ZoneResult, node: ZoneRecords, qname: 
 
 // corollary used (as an assumption) by unit `local`: owners of what a lookup returns (owners_ok: units/base.py OWNERS_OK_RS)
 proof fn lemma_terminal_owners(r: ZoneResult, m: Map<RecordType, Vec<ZoneRecord>>, qname: DomainName, qtype: QueryType, cut: DomainName, delegable: bool)
-    requires terminal_ok(r, m, qname, qtype, cut, delegable)
+    requires terminal_ok(r, m, qname, qtype, cut, delegable), is_suffix(cut.labels@, qname.labels@)
     ensures owners_ok(r, qname)
 {
     if r is Answer {
@@ -125,19 +125,27 @@ proof fn lemma_terminal_owners(r: ZoneResult, m: Map<RecordType, Vec<ZoneRecord>
         }
     }
 }
+proof fn lemma_suffix_of_concat(a: Seq<Label>, b: Seq<Label>, full: Seq<Label>)
+    requires a + b == full
+    ensures is_suffix(b, full)
+{ assert(full.subrange(full.len() - b.len(), full.len() as int) =~= b); }
 broadcast proof fn lemma_result_owners(r: ZoneResult, node: ZoneRecords, qname: DomainName, qtype: QueryType, rel: Seq<Label>, at_apex: bool)
-    requires #[trigger] lookup_ok(r, node, qname, qtype, rel, at_apex)
+    requires #[trigger] lookup_ok(r, node, qname, qtype, rel, at_apex), tree_wf(node), rel + node.nsdname.labels@ == qname.labels@
     ensures owners_ok(r, qname)
     decreases rel.len()
 {
+    lemma_suffix_of_concat(rel, node.nsdname.labels@, qname.labels@);
     if rel.len() == 0 {
         lemma_terminal_owners(r, node.this@, qname, qtype, node.nsdname, !at_apex);
     } else {
         let l = rel.last();
+        assert(rel.drop_last() + (seq![l] + node.nsdname.labels@) =~= rel + node.nsdname.labels@) by { assert(rel.drop_last().push(l) =~= rel); }
         if node.children@.contains_key(l) {
+            lemma_tree_wf_child(node, l);
             lemma_result_owners(r, node.children@[l], qname, qtype, rel.drop_last(), false);
         } else if node.wildcards is Some {
             let cut = choose|cut: DomainName| cut.labels@ == seq![l] + node.nsdname.labels@ && #[trigger] terminal_ok(r, node.wildcards->Some_0@, qname, qtype, cut, true);
+            lemma_suffix_of_concat(rel.drop_last(), cut.labels@, qname.labels@);
             lemma_terminal_owners(r, node.wildcards->Some_0@, qname, qtype, cut, true);
         }
     }
